@@ -135,6 +135,10 @@ def _run_one(node, root, prop, g, G, H):
         return res
     if "VERIFICATION:- FAILED" in txt:
         fails = re.findall(r"Failed Checks: (.*)", txt)
+        if not fails or "CBMC failed" in txt or "out of memory" in txt:
+            # the back end died (memory, internal error): a tool limit, never an alarm
+            res.update(status="error", detail="CBMC did not finish: " + " ".join(l for l in txt.splitlines() if "CBMC" in l)[:300])
+            return res
         if any("unwinding assertion" in f for f in fails):
             res.update(status="undecided", detail="unwinding assertion failed (bound too small): " + "; ".join(fails)[:300])
             return res
